@@ -195,32 +195,75 @@ theorem c09_refuse (f : Int → Outcome) (s : St) (h : s.th.isOpen = false) :
   refine ⟨?_, push_closed s h, pushBegin_closed s h⟩
   simp [submitTask, submitAccept, h, fact_refuses, refusalClass]
 
-/-- **the executor's own refusal** — when `self._pool.submit` raises (RuntimeError: the pool was shut down, as at
-    interpreter exit), `push_snapshot` hands an exception to its caller — an `Exception` from the executor, or, on a
-    closed handler, the `BaseException` of `__check_open` which comes first — and nothing else happens: no task exists
-    for that snapshot (it is never sent: not once, not twice), nothing is added to what the pool accepted or to the
-    pending map, the handler stays as open or closed as it was, flush's bookkeeping is untouched, no work is done on the
-    caller; only a job id is used up.  `.pushRejected` is a step of every schedule the other theorems quantify over:
-    ids are still never reused (`c09_ids_distinct`), every accepted snapshot is still sent exactly once (`c09_once`),
-    flush still returns and drains (`c09_flush_returns`, `c09_drained_partial`). -/
+/-- **the executor refuses BEFORE it queues** (`ThreadPoolExecutor.submit` raising "cannot schedule new futures after
+    shutdown / after interpreter shutdown": the check is the first thing `submit` does) — the whole effect of such a
+    `push_snapshot`, read off the regenerated `submitRejected` (the statements of `submit_task` before `pool.submit`):
+    the caller gets an `Exception` (on a closed handler the `BaseException` of `__check_open`, which comes first), and
+    the state changes in exactly two places — one refusal more, and one job id used up iff the handler was open.  No
+    task exists for the snapshot, so along every schedule (`.pushRejected` is a step of all of them) it is never sent
+    (`c09_rejected_before_queue_never_runs`), ids are still never reused (`c09_ids_distinct`), accepted snapshots are
+    still sent exactly once (`c09_once`), flush still returns and drains (`c09_flush_returns`, `c09_drained_partial`).
+    NOT covered by this step: a `submit` that raises AFTER it queued the work item — `c09_queued_then_raised`. -/
 theorem c09_executor_rejection (f : Int → Outcome) (s : St) :
     (submitRejected s.th).2 = (if s.th.isOpen then .exc else .base) ∧
-    (step f s .pushRejected).refused = s.refused + 1 ∧
-    (step f s .pushRejected).tasks = s.tasks ∧
-    (step f s .pushRejected).th.accepted = s.th.accepted ∧
-    (step f s .pushRejected).th.pending = s.th.pending ∧
-    (step f s .pushRejected).th.isOpen = s.th.isOpen ∧
-    (step f s .pushRejected).flush = s.flush ∧
-    (step f s .pushRejected).callerRuns = s.callerRuns ∧
-    s.th.jobId ≤ (step f s .pushRejected).th.jobId := by
-  have e : step f s .pushRejected = pushRejected s := rfl
-  rw [e, pushRejected_eq]
-  refine ⟨?_, rfl, rfl, rfl, rfl, rfl, rfl, rfl, ?_⟩
-  · cases ho : s.th.isOpen with
-    | false => rw [submitRejected_closed _ ho]; rfl
-    | true => rw [submitRejected_open _ ho]; rfl
-  · show s.th.jobId ≤ (if s.th.isOpen then s.th.jobId + 1 else s.th.jobId)
-    split <;> omega
+    step f s .pushRejected =
+      { s with th := { s.th with jobId := if s.th.isOpen then s.th.jobId + 1 else s.th.jobId },
+               refused := s.refused + 1 } := by
+  refine ⟨?_, pushRejected_eq s⟩
+  cases ho : s.th.isOpen with
+  | false => rw [submitRejected_closed _ ho]; rfl
+  | true => rw [submitRejected_open _ ho]; rfl
+
+/-- … and so the job id such a push used up never names a task, whatever the schedule does afterwards: nothing is
+    ever started, run or sent under it. -/
+theorem c09_rejected_before_queue_never_runs (f : Int → Outcome) (sched rest : List Step)
+    (ho : (run f sched).th.isOpen = true) :
+    ∀ t ∈ (run f (sched ++ .pushRejected :: rest)).tasks, t.id ≠ (run f sched).th.jobId + 1 ∨
+      t ∉ (run f (sched ++ [.pushRejected])).tasks := by
+  intro t _
+  by_cases hm : t ∈ (run f (sched ++ [.pushRejected])).tasks
+  · left
+    have e : run f (sched ++ [.pushRejected]) = pushRejected (run f sched) := by
+      simp [run, runFrom, List.foldl_append, step]
+    rw [e, pushRejected_eq] at hm
+    have := ((inv_run f sched).pos t hm).2
+    omega
+  · exact Or.inr hm
+
+/-- **the executor raises AFTER it queued the work item** (`ThreadPoolExecutor.submit` puts the item on its queue and then
+    starts a worker; `Thread.start` failing with "can't start new thread" leaves the item queued): `push_snapshot`
+    raises to its caller, yet the task exists and can run — it is `pushBegin` (the regenerated statements of
+    `submit_task` up to and including `pool.submit`) plus the refusal, and the store into the pending map and the
+    done-callback never happen (the id stays in `storing`).  Exactly-once still holds for it (`c09_once` quantifies over
+    this step), flush still never raises; but flush does not wait for it: any flush that begins afterwards sets the
+    `overlap` flag, i.e. falls outside the hypothesis `NoPushOverlapsFlush` of `c09_drained_partial` — see the witness
+    `c09_refused_but_runs_unwaited`. -/
+theorem c09_queued_then_raised (f : Int → Outcome) (s : St) (ho : s.th.isOpen = true) :
+    step f s .pushQueuedRaised =
+      { s with th := { s.th with jobId := s.th.jobId + 1, accepted := s.th.accepted ++ [s.th.jobId + 1] },
+               tasks := s.tasks ++ [⟨s.th.jobId + 1, .queued, false, [], 0⟩],
+               storing := s.storing ++ [s.th.jobId + 1],
+               refused := s.refused + 1 } ∧
+    ((s.flush = .idle ∨ s.flush = .returned) →
+      (step f (step f s .pushQueuedRaised) .flushBegin).overlap = true) := by
+  have e : step f s .pushQueuedRaised = { pushBegin s with refused := (pushBegin s).refused + 1 } := by
+    show pushQueuedRaised s = _
+    simp [pushQueuedRaised, ho]
+  have hb := pushBegin_open s ho
+  refine ⟨by rw [e, hb], ?_⟩
+  intro hfl
+  rw [e, hb]
+  rcases hfl with hfl | hfl <;> simp [step, hfl]
+
+/-- witness (finding candidate `C09/refused-push-still-runs-unwaited`): the executor queues the second snapshot's task
+    and raises; the caller was refused, flush begins, finds only task 1 pending, returns — and the refused snapshot is
+    then converted and sent (once) by a worker, after flush has returned. -/
+theorem c09_refused_but_runs_unwaited :
+    let s := run (fun _ => .ok) [.push, .pushQueuedRaised, .start 1 0, .finish 1, .flushBegin, .flushWait, .flushEnd]
+    let s' := runFrom (fun _ => .ok) s [.start 2 1, .finish 2]
+    s.flush = .returned ∧ s.refused = 1 ∧ s.timedOut = false ∧ s.overlap = true ∧
+    s.tasks.map (fun t => (t.id, t.fut)) = [(1, .done), (2, .queued)] ∧ s.th.pending = [1] ∧
+    s'.tasks.map (fun t => (t.id, t.sends)) = [(1, 1), (2, 1)] := by decide
 
 /-- tripwire: the in-tree submitters — every `submit_task` call site of src/deep, enumerated from the source at
     extraction time: the configuration service's listener update and the push service.  (A new submitter breaks this
@@ -265,6 +308,10 @@ theorem c09_closed_stays (f : Int → Outcome) (sched : List Step) (s : St) (h :
     | push => show (push s).th.isOpen = false; rw [push_closed s h]; exact h
     | pushBegin => show (pushBegin s).th.isOpen = false; rw [pushBegin_closed s h]; exact h
     | pushRejected => show (pushRejected s).th.isOpen = false; rw [pushRejected_eq]; exact h
+    | pushQueuedRaised =>
+      show (pushQueuedRaised s).th.isOpen = false
+      simp only [pushQueuedRaised, h, Bool.false_eq_true, if_false]
+      rw [pushBegin_closed s h]; exact h
     | pushStore id =>
       simp only [step]
       split
